@@ -84,7 +84,7 @@ class Chaos:
             self.depth -= 1
 
     def _do(self, obj, name, kind, rng):
-        a = rng.randrange(16)
+        a = rng.randrange(18)
         self.count("act:%d" % a)
         try:
             if a == 0:
@@ -186,6 +186,29 @@ class Chaos:
                     except Exception:
                         pass
                 del self.program_handlers[:]
+            elif a in (16, 17):
+                # let go of objects that are only held through another object's attribute
+                # (delegates, prototypes, partners, nested items): the C frame that is running
+                # this callback may be working on one of them
+                pool = [o for o in self.objects if isinstance(o, HasTraits)]
+                if isinstance(obj, HasTraits):
+                    pool.append(obj)
+                rng.shuffle(pool)
+                for o in pool[:3]:
+                    for k, v in list(o.__dict__.items()):
+                        if isinstance(v, HasTraits) and v is not obj:
+                            if a == 16:
+                                o.__dict__.pop(k, None)
+                            else:
+                                try:
+                                    setattr(o, k, None)
+                                except ChaosError:
+                                    raise
+                                except Exception:
+                                    o.__dict__.pop(k, None)
+                v = None
+                if rng.random() < 0.5:
+                    gc.collect()
         except RecursionError:
             pass
 
